@@ -66,7 +66,9 @@ def hygiene():
 
 
 def innermost_nbdime_frame(exc):
-    """module:function of the innermost frame inside the nbdime package (M-NOEXC key)."""
+    """module:function[source line] of the innermost frame inside the nbdime package (M-NOEXC key).
+    The statement text makes two different failures inside one function two different mechanisms."""
+    import linecache
     tb = exc.__traceback__
     best = None
     while tb is not None:
@@ -75,7 +77,8 @@ def innermost_nbdime_frame(exc):
             mod = fn.split(os.sep + "nbdime" + os.sep, 1)[1].replace(os.sep, ".")
             if mod.endswith(".py"):
                 mod = mod[:-3]
-            best = "%s:%s" % (mod, tb.tb_frame.f_code.co_name)
+            line = " ".join(linecache.getline(fn, tb.tb_lineno).split())[:60]
+            best = "%s:%s[%s]" % (mod, tb.tb_frame.f_code.co_name, line)
         tb = tb.tb_next
     return best or "outside-nbdime"
 
